@@ -313,18 +313,18 @@ func (p *Provider) buildAck(req *dhcp4.Message, ackIP net.IP, pool *IPPool) []by
 
 func (p *Provider) buildResponse(req *dhcp4.Message, ip net.IP, pool *IPPool, msgType dhcp4.MessageType) []byte {
 	dhcpPayload := buildDHCPv4Reply(req, ip, pool.Gateway, msgType, func(opts *optionWriter) {
-		opts.addByte(dhcp4.OptServerID, pool.Gateway.To4())
+		opts.addNonEmpty(dhcp4.OptServerID, pool.Gateway.To4())
 		leaseData := make([]byte, 4)
 		binary.BigEndian.PutUint32(leaseData, pool.LeaseTime)
 		opts.addByte(dhcp4.OptLeaseTime, leaseData)
-		opts.addByte(dhcp4.OptSubnetMask, []byte(pool.Network.Mask))
-		opts.addByte(dhcp4.OptRouter, pool.Gateway.To4())
+		opts.addNonEmpty(dhcp4.OptSubnetMask, []byte(pool.Network.Mask))
+		opts.addNonEmpty(dhcp4.OptRouter, pool.Gateway.To4())
 		if len(pool.DNSServers) > 0 {
 			dnsData := make([]byte, 0, len(pool.DNSServers)*4)
 			for _, dns := range pool.DNSServers {
 				dnsData = append(dnsData, dns.To4()...)
 			}
-			opts.addByte(dhcp4.OptDNS, dnsData)
+			opts.addNonEmpty(dhcp4.OptDNS, dnsData)
 		}
 		for _, o := range pool.Options {
 			opts.addByte(o.Tag, o.Payload)
@@ -345,19 +345,19 @@ func (p *Provider) buildResponseFromResolved(req *dhcp4.Message, resolved *dhcp.
 		leaseData := make([]byte, 4)
 		binary.BigEndian.PutUint32(leaseData, uint32(resolved.LeaseTime.Seconds()))
 		opts.addByte(dhcp4.OptLeaseTime, leaseData)
-		opts.addByte(dhcp4.OptSubnetMask, []byte(resolved.Netmask))
+		opts.addNonEmpty(dhcp4.OptSubnetMask, []byte(resolved.Netmask))
 		if resolved.ServerID != nil {
-			opts.addByte(dhcp4.OptServerID, resolved.ServerID.To4())
+			opts.addNonEmpty(dhcp4.OptServerID, resolved.ServerID.To4())
 		}
 		if resolved.Router != nil {
-			opts.addByte(dhcp4.OptRouter, resolved.Router.To4())
+			opts.addNonEmpty(dhcp4.OptRouter, resolved.Router.To4())
 		}
 		if len(resolved.DNS) > 0 {
 			dnsData := make([]byte, 0, len(resolved.DNS)*4)
 			for _, dns := range resolved.DNS {
 				dnsData = append(dnsData, dns.To4()...)
 			}
-			opts.addByte(dhcp4.OptDNS, dnsData)
+			opts.addNonEmpty(dhcp4.OptDNS, dnsData)
 		}
 		if len(resolved.ClasslessRoutes) > 0 {
 			routeData := encodeClasslessRoutes(resolved.ClasslessRoutes)
@@ -385,6 +385,17 @@ func (w *optionWriter) addByte(optType uint8, data []byte) {
 	}
 	w.buf = append(w.buf, optType, uint8(len(data)))
 	w.buf = append(w.buf, data...)
+}
+
+// addNonEmpty writes an address-valued option (subnet mask, router, DNS,
+// server identifier) unless its value is empty: RFC 2132 gives these options
+// a minimum length of 4, and an empty value only arises from a non-IPv4
+// address or a missing netmask.
+func (w *optionWriter) addNonEmpty(optType uint8, data []byte) {
+	if len(data) == 0 {
+		return
+	}
+	w.addByte(optType, data)
 }
 
 func buildDHCPv4Reply(req *dhcp4.Message, yourIP net.IP, serverIP net.IP, msgType dhcp4.MessageType, writeOptions func(*optionWriter)) []byte {
